@@ -11,10 +11,10 @@ open CacheFile
 /-- every key occurs at most once -/
 def NoDupKeys (c : Cache) : Prop := (c.map (·.1)).Nodup
 
-theorem find?_key_none {l : Cache} {k : Nat} (h : ∀ e ∈ l, e.1 ≠ k) : l.find? (fun e => e.1 = k) = none := by
+theorem find?_key_none {l : Cache} {k : CKey} (h : ∀ e ∈ l, e.1 ≠ k) : l.find? (fun e => e.1 = k) = none := by
   rw [List.find?_eq_none]; intro e he; simpa using h e he
 
-theorem find?_key_some {l : Cache} (hnd : NoDupKeys l) {e : Nat × Template} (he : e ∈ l) :
+theorem find?_key_some {l : Cache} (hnd : NoDupKeys l) {e : CKey × Template} (he : e ∈ l) :
     l.find? (fun x => x.1 = e.1) = some e := by
   induction l with
   | nil => cases he
@@ -29,7 +29,7 @@ theorem find?_key_some {l : Cache} (hnd : NoDupKeys l) {e : Nat × Template} (he
       exact ih hnd.2 h
 
 /-- with distinct keys, lookup by key depends only on the set of entries -/
-theorem lookupKey_perm {l₁ l₂ : Cache} (hp : l₁.Perm l₂) (hnd : NoDupKeys l₁) (k : Nat) :
+theorem lookupKey_perm {l₁ l₂ : Cache} (hp : l₁.Perm l₂) (hnd : NoDupKeys l₁) (k : CKey) :
     Cache.lookupKey l₁ k = Cache.lookupKey l₂ k := by
   have hnd2 : NoDupKeys l₂ := by
     unfold NoDupKeys at *; exact (hp.map _).nodup_iff.mp hnd
@@ -42,7 +42,7 @@ theorem lookupKey_perm {l₁ l₂ : Cache} (hp : l₁.Perm l₂) (hnd : NoDupKey
     have h2 : ∀ e ∈ l₂, e.1 ≠ k := fun e he => h1 e (hp.mem_iff.mpr he)
     rw [find?_key_none h1, find?_key_none h2]
 
-theorem insertKey_nodup (c : Cache) (k : Nat) (t : Template) (h : NoDupKeys c) : NoDupKeys (c.insertKey k t) := by
+theorem insertKey_nodup (c : Cache) (k : CKey) (t : Template) (h : NoDupKeys c) : NoDupKeys (c.insertKey k t) := by
   unfold NoDupKeys Cache.insertKey at *
   rw [List.map_cons, List.nodup_cons]
   constructor
@@ -57,7 +57,7 @@ theorem insert_nodup (c : Cache) (a : Bytes) (id : Nat) (t : Template) (h : NoDu
 
 /-! ## the insertion sort of `dumpJson` is a permutation -/
 
-theorem insertSorted_perm (e : Nat × Template) (l : List (Nat × Template)) : (insertSorted e l).Perm (e :: l) := by
+theorem insertSorted_perm (e : CKey × Template) (l : List (CKey × Template)) : (insertSorted e l).Perm (e :: l) := by
   induction l with
   | nil => exact List.Perm.refl _
   | cons x xs ih =>
@@ -66,7 +66,7 @@ theorem insertSorted_perm (e : Nat × Template) (l : List (Nat × Template)) : (
     · exact List.Perm.refl _
     · exact (List.Perm.cons x ih).trans (List.Perm.swap e x xs)
 
-theorem sortEntries_perm (l : List (Nat × Template)) : (sortEntries l).Perm l := by
+theorem sortEntries_perm (l : List (CKey × Template)) : (sortEntries l).Perm l := by
   induction l with
   | nil => exact List.Perm.refl _
   | cons x xs ih =>
@@ -76,7 +76,7 @@ theorem sortEntries_perm (l : List (Nat × Template)) : (sortEntries l).Perm l :
 /-! ## loading: `foldl insertKey` over a list with distinct keys is lookup-equivalent to the list -/
 
 theorem lookupKey_foldl_insertKey (l : Cache) (hnd : NoDupKeys l) :
-    ∀ (acc : Cache) (k : Nat),
+    ∀ (acc : Cache) (k : CKey),
       Cache.lookupKey (l.foldl (fun c e => CacheFile.insertKey c e.1 e.2) acc) k =
         (match Cache.lookupKey l k with | some t => some t | none => Cache.lookupKey acc k) := by
   induction l with
@@ -148,30 +148,72 @@ theorem flatMap_insert_bucket {α : Type} (x : α) (g : Nat → List α) (j : Na
       have := ih hnd.2 hj'
       exact (List.Perm.append_left (g a) this).trans (List.perm_middle)
 
-/-- splitting a list into buckets by `key % n` and concatenating the buckets is a permutation -/
-theorem buckets_perm (n : Nat) (hn : 0 < n) (c : Cache) :
-    ((List.range n).flatMap fun i => c.filter fun e => e.1 % n = i).Perm c := by
+/-- splitting a list into the buckets `0 … n-1` by shard index and concatenating the buckets is a permutation of the
+entries whose shard index is below `n` -/
+theorem buckets_perm (n : Nat) (c : Cache) :
+    ((List.range n).flatMap fun i => c.filter fun e => e.1.1 = i).Perm (c.filter fun e => e.1.1 < n) := by
   induction c with
   | nil => simp
   | cons x xs ih =>
-    have hj : x.1 % n ∈ List.range n := List.mem_range.mpr (Nat.mod_lt _ hn)
-    have hfun : (fun i => (x :: xs).filter fun e => e.1 % n = i) =
-        fun i => if i = x.1 % n then x :: (xs.filter fun e => e.1 % n = i) else xs.filter fun e => e.1 % n = i := by
-      funext i
-      by_cases h : i = x.1 % n
-      · simp [List.filter, h]
-      · have : ¬ (x.1 % n = i) := fun hh => h hh.symm
-        simp [List.filter, h, this]
-    rw [hfun]
-    exact (flatMap_insert_bucket x _ _ _ (List.nodup_range) hj).trans (List.Perm.cons x ih)
+    by_cases hx : x.1.1 < n
+    · have hj : x.1.1 ∈ List.range n := List.mem_range.mpr hx
+      have hfun : (fun i => (x :: xs).filter fun e => e.1.1 = i) =
+          fun i => if i = x.1.1 then x :: (xs.filter fun e => e.1.1 = i) else xs.filter fun e => e.1.1 = i := by
+        funext i
+        by_cases h : i = x.1.1
+        · simp [List.filter, h]
+        · have : ¬ (x.1.1 = i) := fun hh => h hh.symm
+          simp [List.filter, h, this]
+      rw [hfun]
+      have hr : (x :: xs).filter (fun e => e.1.1 < n) = x :: xs.filter (fun e => e.1.1 < n) := by
+        simp [List.filter, hx]
+      rw [hr]
+      exact (flatMap_insert_bucket x _ _ _ (List.nodup_range) hj).trans (List.Perm.cons x ih)
+    · have hfun : ∀ i ∈ List.range n, ((x :: xs).filter fun e => e.1.1 = i) = xs.filter fun e => e.1.1 = i := by
+        intro i hi
+        have : ¬ (x.1.1 = i) := fun hh => hx (hh ▸ List.mem_range.mp hi)
+        simp [List.filter, this]
+      rw [flatMap_congr' _ _ _ hfun]
+      have hr : (x :: xs).filter (fun e => e.1.1 < n) = xs.filter (fun e => e.1.1 < n) := by
+        simp [List.filter, hx]
+      rw [hr]
+      exact ih
 
-/-- the entries of the document written for a cache are a permutation of the cache -/
-theorem docEntries_docOf_perm (c : Cache) : (docEntries (docOf c)).Perm c := by
+theorem docEntriesFrom_map (f : Nat → DocShard) : ∀ (n i : Nat),
+    docEntriesFrom i ((List.range' i n).map f) = (List.range' i n).flatMap fun j => shardEntries j (f j)
+  | 0, _ => rfl
+  | n+1, i => by
+    simp only [List.range'_succ, List.map_cons, docEntriesFrom, List.flatMap_cons]
+    rw [docEntriesFrom_map f n (i + 1)]
+
+/-- the entries of one shard of `docOf c`, put back under (shard, key text), are the sorted bucket itself
+(the bucket's entries all carry the shard index `i`) -/
+theorem shardEntries_docOf (l : List (CKey × Template)) (i : Nat) (h : ∀ e ∈ l, e.1.1 = i) :
+    shardEntries i (some (some (l.map fun e => (e.1.2, e.2)))) = l := by
+  simp only [shardEntries, List.map_map]
+  have : ∀ e ∈ l, ((fun e : Bytes × Template => ((i, e.1), e.2)) ∘ fun e : CKey × Template => (e.1.2, e.2)) e = id e := by
+    intro e he
+    have := h e he
+    obtain ⟨⟨s, k⟩, t⟩ := e
+    simp only at this
+    simp [this]
+  rw [List.map_congr_left this, List.map_id]
+
+/-- the entries of the document written for a cache are a permutation of the cache's entries (those of the shards
+0 … 31: a cache built by `insert` / `loadDoc` has no others, `ShardsOk`) -/
+theorem docEntries_docOf_perm (c : Cache) : (docEntries (docOf c)).Perm (c.filter fun e => e.1.1 < 32) := by
   unfold docEntries docOf
-  simp only [List.flatMap_map]
-  refine List.Perm.trans ?_ (buckets_perm 32 (by decide) c)
+  simp only
+  rw [List.range_eq_range', docEntriesFrom_map]
+  rw [← List.range_eq_range']
+  refine List.Perm.trans ?_ (buckets_perm 32 c)
   apply perm_flatMap_left
   intro i _
+  have hb : ∀ e ∈ sortEntries (c.filter fun e => e.1.1 = i), e.1.1 = i := by
+    intro e he
+    have := (sortEntries_perm _).mem_iff.mp he
+    simpa using (List.mem_filter.mp this).2
+  rw [shardEntries_docOf _ i hb]
   exact sortEntries_perm _
 
 theorem docUsable_docOf (c : Cache) : docUsable (docOf c) = true := by
